@@ -564,7 +564,7 @@ def run_impl(ops, raw=False):
                 kk, i, j, o = op[1], op[2], op[3], op[4]
                 a, b = sets[i], sets[j]
                 before = (show_set(a), show_set(b))
-                if kk == i and (len(before[0]) + len(before[1])) % 2:
+                if kk == i and (len(before[0]) // 3 + len(o)) % 3 != 0:
                     # the augmented spelling `a op= b` (also `a op= a`): Python falls back to `a = a op b` when
                     # the class has no in-place operator; whatever the class does, the name ends up bound to the
                     # set-theoretic result and the right operand (when it is another object) is unchanged
